@@ -26,6 +26,7 @@ def run(ctx):
     frozen = json.load(open(lib_module.OPTIONS_TABLE))["methods"]
     stat_funcs = {f for f, es in frozen.items() if any(e.get("flag", "").startswith("TSK_STAT_") for e in es)}
     lib_module.options_plumbing(ctx, P, funcs=stat_funcs)
+    lib_module.flags_consumed(ctx, P, funcs=stat_funcs)
     lib_module.array_flags(ctx, P, only=ms)
     lib_module.parsed_used(ctx, P, only=ms)
     lib_sweep.sweep_conditions(ctx, P, tus=["trees"])
